@@ -23,15 +23,17 @@ theorem travSel_complete_all (v : Variant) (hsp : v.savePrev = true) (rs : List 
     rcases List.mem_cons.1 hi with e | e
     · subst e
       refine List.mem_append_left _ ?_
-      have hcall : callHandlersSel v d i (rs.contains i) = handleIdle d i := by
-        unfold callHandlersSel
+      have hcall : callHandlersSel0 v d i (rs.contains i) = handleIdleP d i := by
+        unfold callHandlersSel0
         rcases hq with q | q
         · have hnr : i ∉ rs := by
             intro hm; rw [List.contains_iff_mem.2 hm] at q; cases q
           simp [hc, hnr]
         · simp [hc, q.1, q.2]
-      rw [hcall]
-      exact handleIdle_closes hc ht
+      have hev : (callHandlersSel v d i (rs.contains i)).2 = (handleIdleP d i).2 := by
+        unfold callHandlersSel; rw [hcall]
+      rw [hev]
+      exact handleIdleP_closes hc ht
     · have hij : i ≠ j := fun x => hnd'.1 (x ▸ e)
       have o := others_callHandlersSel v d j (rs.contains j)
       have hnow : (callHandlersSel v d j (rs.contains j)).1.now = d.now := o.2.2.2.1.1
@@ -59,8 +61,8 @@ theorem roundSelect_complete {v : Variant} (hv : Fixed v) (hsp : v.savePrev = tr
   have hc3 : (d3.c i).closed = false := by rw [n4.2.2.2.1]; exact hc
   have ht3 : checkTimedOut d3.now (d3.c i) = true := by
     rw [n1]; unfold checkTimedOut at ht ⊢; rw [n4.1, n4.2.1, n4.2.2.1]; exact ht
-  have hnr : (d.conns.filter fun j => !(d.c j).closed && ((d.c j).unread || (d.c j).peerClosed)).contains i = false := by
-    cases hx : (d.conns.filter fun j => !(d.c j).closed && ((d.c j).unread || (d.c j).peerClosed)).contains i with
+  have hnr : (d.conns.filter fun j => !(d.c j).closed && ((d.c j).unread || (d.c j).peerClosed) && (d.c j).buf == 0).contains i = false := by
+    cases hx : (d.conns.filter fun j => !(d.c j).closed && ((d.c j).unread || (d.c j).peerClosed) && (d.c j).buf == 0).contains i with
     | false => rfl
     | true =>
       have := (List.mem_filter.1 (List.contains_iff_mem.1 hx)).2
